@@ -674,24 +674,30 @@ func (t *Term) walk(f func(*Term)) {
 
 // substitute replaces atoms (by key) throughout a term, re-normalising.
 func substitute(t *Term, sub map[string]*Term) *Term {
-	return substituteMemo(t, sub, map[*Term]*Term{})
+	return substituteMemo(t, sub, map[string]*Term{})
 }
 
-func substituteMemo(t *Term, sub map[string]*Term, memo map[*Term]*Term) *Term {
+// substituteMemo: `seen`, when non-nil, collects the keys of all visited subterms (used to decide whether a
+// new rewrite rule can invalidate memoised results).
+func substituteMemo(t *Term, sub map[string]*Term, memo map[string]*Term) *Term {
 	if len(sub) == 0 {
 		return t
 	}
 	var rec func(*Term) *Term
 	rec = func(t *Term) *Term {
-		if r, ok := memo[t]; ok {
+		if t.Op == "const" {
+			return t
+		}
+		k := t.Key()
+		if r, ok := memo[k]; ok {
 			return r
 		}
 		var r *Term
-		if s, ok := sub[t.Key()]; ok {
+		if s, ok := sub[k]; ok {
 			r = s
 		} else {
 			switch t.Op {
-			case "const", "var":
+			case "var":
 				r = t
 			case "poly":
 				r = fromPolySubst(t.P, rec)
@@ -713,7 +719,7 @@ func substituteMemo(t *Term, sub map[string]*Term, memo map[*Term]*Term) *Term {
 				}
 			}
 		}
-		memo[t] = r
+		memo[k] = r
 		return r
 	}
 	return rec(t)
